@@ -212,8 +212,8 @@ const RETRY_WATCHDOG: Duration = Duration::from_secs(10);
 static HOG_RUNS: AtomicUsize = AtomicUsize::new(0);
 
 pub fn run_direct(case: &DirectCase) -> Outcome {
-    if case.hogs > 0 && HOG_RUNS.fetch_add(1, Ordering::SeqCst) >= 6 {
-        // the reproduction aid is tried six times per process, further repeats are skipped
+    if case.hogs > 0 && HOG_RUNS.fetch_add(1, Ordering::SeqCst) >= 3 {
+        // the reproduction aid is tried three times per process, further repeats are skipped
         return Outcome::pass(false, &["hog-case-skipped"]);
     }
     let threads = case.threads.clamp(1, 6) as usize;
